@@ -23,7 +23,7 @@ def fmt_of(units, pad=""):
     return " ".join(("%" + pad + UNITS[u][1:]) if pad and u in "HMSd" and u != "b" else UNITS[u] for u in units)
 
 
-def run_matrix(tool, pts, with_time, units, pad="", textfn=None, extra_args=()):
+def run_matrix(tool, pts, with_time, units, pad="", textfn=None, extra_args=(), argfn=None):
     """ddiff A -f FMT with all points on stdin, for every A: returns {(i, j): raw output line};
     textfn(p) writes the operands in another notation (extra_args: the -i format for it)"""
     fmt = fmt_of(units, pad)
@@ -31,7 +31,7 @@ def run_matrix(tool, pts, with_time, units, pad="", textfn=None, extra_args=()):
     inp = "".join(tf(p) + "\n" for p in pts)
 
     def one(i):
-        p = core.run([tool] + list(extra_args) + [tf(pts[i]), "-f", fmt], inp=inp, timeout=60)
+        p = core.run([tool] + list(extra_args) + [(argfn or tf)(pts[i]), "-f", fmt], inp=inp, timeout=60)
         return i, p.stdout.splitlines(), p.returncode
     res = {}
     bad = []
@@ -63,9 +63,14 @@ def parse(line, units):
     return comps, minus, lead
 
 
-def diff_events(rep, tool, pts, with_time, units, max_span=None):
-    """DiffTrace events for all ordered pairs of pts under one format (ddiff A B and ddiff B A); earlier day-of-month <= 28 for month/year units"""
-    res, bad = run_matrix(tool, pts, with_time, units)
+def epoch_text(p):
+    return "@%d" % ((p["ldn"] - 141427) * 86400 + p["sod"])
+
+
+def diff_events(rep, tool, pts, with_time, units, max_span=None, argfn=None, tag=""):
+    """DiffTrace events for all ordered pairs of pts under one format (ddiff A B and ddiff B A); earlier day-of-month <= 28 for month/year units;
+    argfn writes the command-line operand in another notation than the stdin operands (mixed notation)"""
+    res, bad = run_matrix(tool, pts, with_time, units, argfn=argfn)
     for i, n, rc in bad:
         rep.disagree("ddiff %s: wrong number of output lines" % "".join(units), {"A": text(pts[i], with_time), "lines": n, "rc": rc})
     out = []
@@ -81,8 +86,13 @@ def diff_events(rep, tool, pts, with_time, units, max_span=None):
                 continue
             p1, p2 = parse(res[(i, j)], units), parse(res[(j, i)], units)
             dead = {u: -1 for u in UNITS}
-            out.append([{"e": "Diff", "cmd": "ddiff %s %s -f '%s'" % (text(a, with_time), text(bb, with_time), fmt_of(units)),
-                         "fmt": "".join(units), "cal": "ywd" if ("Y" in units and "w" in units and "m" not in units) else "greg", "a": a, "b": bb,
+            if any(p_ and max(p_[0].values()) >= 2 ** 31 for p_ in (p1, p2)):
+                # the pairs are chosen so that no unit reaches 2^31 (TLC's integers end there): such a value is wrong on its face
+                rep.disagree("ddiff %s%s: a printed unit of 2^31 or more for operands less than 2^31 of it apart" % ("".join(units), tag),
+                             {"A": (argfn or (lambda p: text(p, with_time)))(a), "B": text(bb, with_time), "out": res[(i, j)], "rout": res[(j, i)]})
+                continue
+            out.append([{"e": "Diff", "cmd": "ddiff %s %s -f '%s'" % ((argfn or (lambda p: text(p, with_time)))(a), text(bb, with_time), fmt_of(units)),
+                         "fmt": "".join(units) + tag, "cal": "ywd" if ("Y" in units and "w" in units and "m" not in units) else "greg", "a": a, "b": bb,
                          "comps": p1[0] if p1 else dead, "neg": bool(p1 and p1[2]), "out": res[(i, j)],
                          "rcomps": p2[0] if p2 else dead, "rneg": bool(p2 and p2[2]), "rout": res[(j, i)]}])
     return out, len(pts)
